@@ -1,6 +1,10 @@
 //! scc_native <check> [--tier quick|thorough] [--seed N] [--case "<debug string>"]
 //! Bounded native contract checks and counterexample replay on the REAL code-generation functions.
 mod a64;
+mod axmachine;
+mod progen;
+mod linwf;
+mod progs;
 mod emitters;
 mod heap;
 mod machine;
@@ -228,6 +232,60 @@ fn check_heap(tier: &str, seed: u64, backend: Option<&str>) -> Vec<Summary> {
     out
 }
 
+fn check_linearize(tier: &str, seed: u64) -> Vec<Summary> {
+    let n: u64 = if tier == "thorough" { 60_000 } else { 6_000 };
+    let cases: Vec<(u64, usize)> = (0..n).map(|k| (seed.wrapping_mul(1_000_003).wrapping_add(k * 2 + 1), 2 + (k % 4) as usize)).collect();
+    let nontriv = Arc::new(AtomicU64::new(0));
+    let nt = nontriv.clone();
+    let (total, fails) = par_run(cases, move |(sd, depth)| {
+        if progs::check_linearize(*sd, *depth)? {
+            nt.fetch_add(1, Ordering::Relaxed);
+        }
+        Ok(())
+    });
+    let mut s = Summary::default();
+    s.check = "linearize".into();
+    s.bound = format!("{n} random well-typed non-linear AxCut programs (1-3 definitions, statement depth 2..5, at most ~10 variables in scope; integers, a two-constructor list, a five-field tuple, closures with one and two methods, calls): exactness of every environment after Prog::linearize and equality of behaviour on the AxCut reference machine");
+    s.cases = total;
+    s.nontrivial = nontriv.load(Ordering::Relaxed);
+    s.samples = vec![format!("Gen::program(seed={}, depth=3)", seed.wrapping_mul(1_000_003).wrapping_add(1))];
+    s.violations = fails.iter().map(|f| f.json("native::axcut::Prog::linearize::exact-environments-and-behaviour", "axcut")).collect();
+    vec![s]
+}
+
+fn check_programs(tier: &str, seed: u64, backend: Option<&str>) -> Vec<Summary> {
+    let mut out = vec![];
+    let n: u64 = if tier == "thorough" { 40_000 } else { 4_000 };
+    macro_rules! one {
+        ($B:ty, $M:ty, $name:expr, $maxenv:expr, $tgt:expr) => {{
+            if backend.map(|b| b == $name).unwrap_or(true) {
+                let cases: Vec<(u64, usize)> = (0..n).map(|k| (seed.wrapping_mul(7_000_003).wrapping_add(k * 2 + 1), 2 + (k % 4) as usize)).collect();
+                let nontriv = Arc::new(AtomicU64::new(0));
+                let nt = nontriv.clone();
+                let (total, fails) = par_run(cases, move |(sd, depth)| {
+                    let tgt = $tgt;
+                    if progs::check_program::<$B, $M, _>(*sd, *depth, $maxenv, &tgt)? {
+                        nt.fetch_add(1, Ordering::Relaxed);
+                    }
+                    Ok(())
+                });
+                let mut s = Summary::default();
+                s.check = format!("programs/{}", $name);
+                s.bound = format!("{n} random small programs (as for linearize), linearized, compiled by coder::compile (+ routine), executed on the machine model from its entry with a zero-filled heap; print calls and result compared with the AxCut reference machine; programs outside the backend's capacity or with undefined arithmetic are skipped");
+                s.cases = total;
+                s.nontrivial = nontriv.load(Ordering::Relaxed);
+                s.samples = vec![format!("Gen::program(seed={}, depth=3)", seed.wrapping_mul(7_000_003).wrapping_add(1))];
+                s.violations = fails.iter().map(|f| f.json(&format!("native::{}::compile::behaves-like-axcut-machine", $name), $name)).collect();
+                out.push(s);
+            }
+        }};
+    }
+    one!(X86B, x86::X86, "x86_64", 9, progs::Target::<x86::X86> { arg_regs: vec![7, 6, 5, 1, 8, 9], ret_reg: 4, entry_sp: 0x7fff_0000_1008, into_routine: Some(axcut2x86_64::into_routine::into_x86_64_routine) });
+    one!(A64B, a64::A64, "aarch64", 16, progs::Target::<a64::A64> { arg_regs: vec![0, 1, 2, 3, 4, 5, 6, 7], ret_reg: 0, entry_sp: 0x7fff_0000_1000, into_routine: Some(axcut2aarch64::into_routine::into_aarch64_routine) });
+    one!(RvB, rv::Rv, "rv64", 5, progs::Target::<rv::Rv> { arg_regs: vec![], ret_reg: 10, entry_sp: 0, into_routine: None });
+    out
+}
+
 fn main() {
     let args: Vec<String> = std::env::args().collect();
     let check = args.get(1).cloned().unwrap_or_default();
@@ -262,6 +320,8 @@ fn main() {
     std::panic::set_hook(Box::new(|_| {}));
     let res = match check.as_str() {
         "moves" => check_moves(&tier, seed),
+        "linearize" => check_linearize(&tier, seed),
+        "programs" => check_programs(&tier, seed, backend.as_deref()),
         "heap" => check_heap(&tier, seed, backend.as_deref()),
         "prints" => check_prints(&tier, seed),
         "emitters" => check_emitters(seed, only.as_deref(), backend.as_deref()),
